@@ -341,7 +341,7 @@ func (g *G) planBlock(bt string, bs *schema.BlockSchema, depth int) *BlockPlan {
 			v = g.str() + itoa(g.n)
 		}
 		if i < len(bs.Labels) && bs.Labels[i].IsDepKey {
-			v = fmt.Sprintf("lv%d", g.pick(4))
+			v = DepLabelValue(g.pick(4))
 			if key != nil && info != nil {
 				for j, li := range info.LabelIdx {
 					if li == i && j < len(key.LabelVals) {
@@ -421,10 +421,10 @@ func (g *G) planBlock(bt string, bs *schema.BlockSchema, depth int) *BlockPlan {
 				}
 				// remove any planned occurrence, then pin
 				blk.Body.remove(st.Name)
-				if val != "" && !g.O.NoOddities && !g.O.Simple && g.coin(0.12) {
+				if val != "" && !g.O.NoOddities && !g.O.Simple && g.coin(0.3) {
 					// written, but not as a string literal: the block has no address at all
 					// (an optional step is only skipped when the attribute is absent)
-					odd := []*E{lit(cty.NumberIntVal(2)), raw("var.unknown"), lit(cty.True)}[g.pick(3)]
+					odd := []*E{lit(cty.NumberIntVal(2)), raw("var.unknown"), lit(cty.True), raw(`true ? null : "x"`)}[g.pick(4)]
 					blk.Body.Items = append(blk.Body.Items, &Item{Attr: &AttrPlan{Name: st.Name, Schema: bs.Body.Attributes[st.Name], Expr: odd, Fixed: true}})
 					ok = false
 					val = ""
@@ -682,6 +682,13 @@ func (g *G) collectionOrLit(t cty.Type, depth int, locals []Decl) *E {
 				o.Keys = append(o.Keys, "("+g.refTo(locals, "", cty.String)+")")
 				o.Kids = append(o.Kids, g.anyExpr(t.ElementType(), depth-1, locals))
 			}
+			if !g.O.Simple && !g.O.NoOddities && g.coin(0.15) {
+				// literal keys in unusual spellings: parenthesised, a conditional that
+				// yields a (typed) null, a quoted key with an escape
+				k := []string{`("pk")`, `(true ? null : "nk")`, `(false ? "fk" : null)`, `"e\"k"`, `true`, `null`}[g.pick(6)]
+				o.Keys = append(o.Keys, k)
+				o.Kids = append(o.Kids, g.anyExpr(t.ElementType(), depth-1, locals))
+			}
 			return o
 		case t.IsObjectType():
 			o := &E{K: "obj"}
@@ -812,6 +819,11 @@ func (g *G) Expr(c schema.Constraint, depth int, locals []Decl) *E {
 				o.Keys = append(o.Keys, "\"${"+g.refTo(locals, "", cty.String)+"}-x\"")
 			}
 			o.Kids = append(o.Kids, lit(cty.NumberIntVal(42)))
+		}
+		// an item the object schema does not know, its key written with an escape
+		if !g.O.Simple && !g.O.NoOddities && g.coin(0.1) {
+			o.Keys = append(o.Keys, `"e\"k"`)
+			o.Kids = append(o.Kids, lit(cty.StringVal("q")))
 		}
 		return o
 	case schema.OneOf:
